@@ -367,7 +367,30 @@ impl fmt::Display for Script<'_> {
     }
 }
 
-fn check_f32(sink: &Sink, bits: u32) {
+fn fclass(cat: std::num::FpCategory, neg: bool, heap: bool) -> usize {
+    use std::num::FpCategory::*;
+    let c = match cat {
+        Zero => 0,
+        Subnormal => 1,
+        Normal => 2,
+        Infinite => 3,
+        Nan => 4,
+    };
+    c * 4 + (neg as usize) * 2 + heap as usize
+}
+const FCLASS_NAMES: [&str; 5] = ["zero", "subnormal", "normal", "infinite", "nan"];
+
+fn merge_fcells(sink: &Sink, ty: &str, cells: &[u64; 20]) {
+    let mut m = BTreeMap::new();
+    for (i, n) in cells.iter().enumerate() {
+        if *n > 0 {
+            m.insert(format!("{}|{}|{}|{}", ty, FCLASS_NAMES[i / 4], if i / 2 % 2 == 1 { "neg" } else { "pos" }, if i % 2 == 1 { "text>16(heap)" } else { "text<=16(inline)" }), *n);
+        }
+    }
+    sink.merge_cells(m);
+}
+
+fn check_f32(sink: &Sink, bits: u32, cells: &mut [u64; 20]) {
     let x = f32::from_bits(bits);
     let Some(l) = guarded(sink, "float-roundtrip", || format!("f32 bits {bits:#010x}"), || x.to_lean_string()) else { return };
     match l.as_str().parse::<f32>() {
@@ -377,8 +400,9 @@ fn check_f32(sink: &Sink, bits: u32) {
     if l.is_heap_allocated() != (l.len() > 16) {
         sink.viol("float-storage", format!("f32 bits {bits:#010x}"), format!("len {} heap {}", l.len(), l.is_heap_allocated()));
     }
+    cells[fclass(x.classify(), x.is_sign_negative(), l.len() > 16)] += 1;
 }
-fn check_f64(sink: &Sink, bits: u64) {
+fn check_f64(sink: &Sink, bits: u64, cells: &mut [u64; 20]) {
     let x = f64::from_bits(bits);
     let Some(l) = guarded(sink, "float-roundtrip", || format!("f64 bits {bits:#018x}"), || x.to_lean_string()) else { return };
     match l.as_str().parse::<f64>() {
@@ -388,6 +412,7 @@ fn check_f64(sink: &Sink, bits: u64) {
     if l.is_heap_allocated() != (l.len() > 16) {
         sink.viol("float-storage", format!("f64 bits {bits:#018x}"), format!("len {} heap {}", l.len(), l.is_heap_allocated()));
     }
+    cells[fclass(x.classify(), x.is_sign_negative(), l.len() > 16)] += 1;
 }
 
 pub fn engine_tls(a: &Args) {
@@ -411,9 +436,11 @@ pub fn engine_tls(a: &Args) {
     let total_chars = 0x110000u64;
     par_ranges(nthreads, total_chars, &|lo, hi| {
         let mut n = 0;
+        let mut widths = [0u64; 5];
         let mut v = lo + (seed % char_stride);
         while v < hi {
             if let Some(c) = char::from_u32(v as u32) {
+                widths[c.len_utf8()] += 1;
                 let l = c.to_lean_string();
                 let mut b = [0u8; 4];
                 if l.as_str() != c.encode_utf8(&mut b) || l.is_heap_allocated() {
@@ -425,6 +452,11 @@ pub fn engine_tls(a: &Args) {
         }
         sink.evals.fetch_add(n, Relaxed);
         sink.cell("arm:char", n);
+        for w in 1..5 {
+            if widths[w] > 0 {
+                sink.cell(&format!("char|utf8-width={w}"), widths[w]);
+            }
+        }
     });
     if char_stride == 1 {
         exhaustive.push("all 1112064 chars".into());
@@ -440,6 +472,7 @@ pub fn engine_tls(a: &Args) {
             sink.viol("tls-display", format!("String {s:?}"), format!("to_lean_string() = {:?}", l.as_str()));
         }
         sink.cell("arm:String", 1);
+        sink.cell(&format!("String|len={}", match len { 0 => "0", 1..=15 => "1-15", 16 => "16", 17..=64 => "17-64", _ => "65+" }), 1);
         // LeanString in several storage kinds
         let src: LeanString = match i % 4 {
             0 => LeanString::from(s.as_str()),
@@ -517,6 +550,7 @@ pub fn engine_tls(a: &Args) {
                 sink.viol("tls-fmt-error", format!("script {pieces:?} failing after {j} pieces"), format!("to_lean_string() returned a partial string {:?}", s.as_str()));
             }
             sink.cell("generic_fmt_error_positions", 1);
+            sink.cell(&format!("script|pieces={}|fails_after={}|written_before>16={}", np.min(4), j.min(4), pieces[..j.min(np)].iter().map(|p| p.len()).sum::<usize>() > 16), 1);
             sink.evals.fetch_add(2, Relaxed);
         }
         sink.evals.fetch_add(2, Relaxed);
@@ -529,16 +563,20 @@ pub fn engine_tls(a: &Args) {
             specials32.push(1 << 31 | e << 23 | m);
         }
     }
+    let mut fc = [0u64; 20];
     for b in &specials32 {
-        check_f32(&sink, *b);
+        check_f32(&sink, *b, &mut fc);
     }
+    merge_fcells(&sink, "f32", &fc);
     sink.cell("arm:f32", specials32.len() as u64);
     sink.evals.fetch_add(specials32.len() as u64, Relaxed);
     if a.flag("f32-exhaustive") {
         par_ranges(nthreads, 1u64 << 32, &|lo, hi| {
+            let mut fc = [0u64; 20];
             for b in lo..hi {
-                check_f32(&sink, b as u32);
+                check_f32(&sink, b as u32, &mut fc);
             }
+            merge_fcells(&sink, "f32", &fc);
             sink.evals.fetch_add(hi - lo, Relaxed);
             sink.cell("arm:f32", hi - lo);
         });
@@ -549,13 +587,15 @@ pub fn engine_tls(a: &Args) {
         par_ranges(nthreads, 512, &|lo, hi| {
             let mut rr = Rng::new(seed0 ^ lo);
             let mut n = 0;
+            let mut fc = [0u64; 20];
             for se in lo..hi {
                 for _ in 0..mant {
                     let m = (rr.next() as u32) & 0x7F_FFFF;
-                    check_f32(&sink, (se as u32) << 23 | m);
+                    check_f32(&sink, (se as u32) << 23 | m, &mut fc);
                     n += 1;
                 }
             }
+            merge_fcells(&sink, "f32", &fc);
             sink.evals.fetch_add(n, Relaxed);
             sink.cell("arm:f32", n);
         });
@@ -569,20 +609,24 @@ pub fn engine_tls(a: &Args) {
             }
         }
     }
+    let mut fc = [0u64; 20];
     for b in &specials64 {
-        check_f64(&sink, *b);
+        check_f64(&sink, *b, &mut fc);
     }
+    merge_fcells(&sink, "f64", &fc);
     sink.cell("arm:f64", specials64.len() as u64);
     sink.evals.fetch_add(specials64.len() as u64, Relaxed);
     let n64 = a.num("f64-random", 2_000_000);
     let seed0 = r.next();
     par_ranges(nthreads, n64, &|lo, hi| {
         let mut rr = Rng::new(seed0 ^ lo);
+        let mut fc = [0u64; 20];
         for i in lo..hi {
             // half uniformly random bit patterns, half "every exponent" with random mantissa
             let b = if i % 2 == 0 { rr.next() } else { (rr.next() & 0x800F_FFFF_FFFF_FFFF) | ((i / 2 % 2048) << 52) };
-            check_f64(&sink, b);
+            check_f64(&sink, b, &mut fc);
         }
+        merge_fcells(&sink, "f64", &fc);
         sink.evals.fetch_add(hi - lo, Relaxed);
         sink.cell("arm:f64", hi - lo);
     });
@@ -870,6 +914,7 @@ pub fn engine_serde(a: &Args) {
                 other => sink.viol("serde-deserialize", format!("{name} {s:?}"), format!("got {:?}", other.map(|x| x.to_string()))),
             }
             sink.cell(&format!("de:{name}"), 1);
+            sink.cell(&format!("de:{name}|len={}", match s.len() { 0 => "0", 1..=15 => "1-15", 16 => "16", 17..=64 => "17-64", _ => "65+" }), 1);
         }
         // \u escapes incl. surrogate pairs, written by hand
         if i % 16 == 0 {
@@ -891,6 +936,7 @@ pub fn engine_serde(a: &Args) {
     let max_len = a.num("bytes-len", 4) as usize;
     let k = ALPHA_MIN.len() as u64;
     let mut nbytes = 0u64;
+    let mut bcells = [0u64; 8];
     let mut check_bytes = |b: &[u8]| {
         let want: Result<String, VErr> = String::deserialize(BytesDeserializer::new(b));
         let got: Result<LeanString, VErr> = LeanString::deserialize(BytesDeserializer::new(b));
@@ -908,6 +954,7 @@ pub fn engine_serde(a: &Args) {
             }
         }
         nbytes += 2;
+        bcells[(valid as usize) * 4 + match b.len() { 0..=3 => 0, 4..=16 => 1, 17..=32 => 2, _ => 3 }] += 2;
     };
     for len in 0..=max_len {
         for idx in 0..k.pow(len as u32) {
@@ -935,9 +982,15 @@ pub fn engine_serde(a: &Args) {
         check_bytes(&b);
     }
     sink.cell("de:bytes-visitors", nbytes);
+    for (i, n) in bcells.iter().enumerate() {
+        if *n > 0 {
+            sink.cell(&format!("de:bytes|{}|len={}", if i / 4 == 1 { "valid-utf8" } else { "invalid-utf8" }, ["0-3", "4-16", "17-32", "33+"][i % 4]), *n);
+        }
+    }
     sink.evals.fetch_add(nbytes, Relaxed);
     // arbitrary
     let n_arb = a.num("arbitrary", 100000);
+    let mut acells = [0u64; 4];
     for i in 0..n_arb {
         let l = r.below(48);
         let raw: Vec<u8> = if i % 2 == 0 {
@@ -977,6 +1030,7 @@ pub fn engine_serde(a: &Args) {
             (Err(_), Err(_)) => true,
             _ => false,
         };
+        acells[(a2.is_ok() as usize) * 2 + (u2.len() == 0) as usize] += 1;
         if !same || u1.len() != u2.len() {
             sink.viol("arbitrary", format!("{raw:02x?}"), format!("arbitrary: {:?} vs {:?}; bytes left {} vs {}", a1.as_ref().map(|x| x.to_string()).ok(), a2.ok(), u1.len(), u2.len()));
         }
@@ -996,6 +1050,11 @@ pub fn engine_serde(a: &Args) {
         sink.evals.fetch_add(2, Relaxed);
     }
     sink.cell("arbitrary+take_rest", 2 * n_arb);
+    for (i, n) in acells.iter().enumerate() {
+        if *n > 0 {
+            sink.cell(&format!("arbitrary|{}|{}", if i / 2 == 1 { "ok" } else { "err" }, if i % 2 == 1 { "consumed-everything" } else { "bytes-left" }), *n);
+        }
+    }
     sink.sample("\"a\\\"é€𝄞\\n\" -> serde_json text and recorded Serializer calls equal to String's".into());
     sink.sample("BytesDeserializer([0x41,0xE0,0x80]) -> Err for both String and LeanString".into());
     sink.sample("Unstructured([..]) -> LeanString::arbitrary == <&str>::arbitrary, same bytes left".into());
